@@ -817,6 +817,44 @@ def resolveTimeZh (u : Uni) (cfg : ZhCfg) (chinese : Bool) (g : ZhGroups) (ref :
     Except String (Option (List Value)) := do
   dateTimeResolution u (toSlot .time (← zhPackTime u cfg g (← zhHandle u cfg chinese g) ref))
 
+/-! ## `ChineseDateParser.match_to_date` -/
+
+/-- `get_month_of_year` / `get_day_of_month`: table value, reduced modulo 12 / 31 when above -/
+def zhReduce (limit v : Nat) : Nat := if v > limit then v % limit else v
+
+/-- month, day, year after the group decoding of the Chinese `match_to_date`; `chsYear` = what
+`convert_chinese_year_to_number(yearchs group)` answers (`-1` = none; it goes through the number recogniser). -/
+def decodeDateZh (u : Uni) (cfg : DateCfg) (g : DateGroups) (chsYear : Int) : Except String (Int × Int × Int) :=
+  let year0 : Int := if chsYear = -1 then 0 else chsYear
+  match lookup cfg.monthOfYear g.month, lookup cfg.dayOfMonth g.day with
+  | some mv, some dv =>
+    let month : Int := zhReduce 12 mv
+    let day : Int := zhReduce 31 dv
+    if !blank u g.year then
+      if isNumericStr u g.year then
+        match pyInt u g.year with
+        | none => .error "ValueError"
+        | some y =>
+          let y : Int := y
+          .ok (month, day, if y < 100 ∧ y ≥ cfg.minTwoDigitYearPast then y + 1900
+                           else if y < 100 ∧ y < cfg.maxTwoDigitYearFuture then y + 2000 else y)
+      else .ok (month, day, if (0 : Int) ≥ cfg.minTwoDigitYearPast then 1900 else if (0 : Int) < cfg.maxTwoDigitYearFuture then 2000 else 0)
+    else .ok (month, day, year0)
+  | _, _ => .ok (0, 0, year0)
+
+/-- `ChineseDateParser.match_to_date(match, reference)` on the group values -/
+def matchToDateZh (u : Uni) (cfg : DateCfg) (g : DateGroups) (chsYear : Int) (ref : DT) : Except String Res := do
+  let (month, day, year) ← decodeDateZh u cfg g chsYear
+  let (year, timex, noYear) : Int × Str × Bool :=
+    if year = 0 then ((ref.y : Int), luisDate (-1) month day, true) else (year, luisDate year month day, false)
+  let (future, past) := generateDates noYear ref year month day
+  return { success := true, timex := timex, future := future, past := past }
+
+/-- Chinese date entity: `match_to_date` → `ChineseDateParser.parse` → `_date_time_resolution` -/
+def resolveDateZh (u : Uni) (cfg : DateCfg) (g : DateGroups) (chsYear : Int) (ref : DT) :
+    Except String (Option (List Value)) := do
+  dateTimeResolution u (toSlot .date (← matchToDateZh u cfg g chsYear ref))
+
 /-! ## Compositions used by the properties -/
 
 /-- date entity: `match_to_date` → `BaseDateParser.parse` → `_date_time_resolution` -/
